@@ -151,6 +151,9 @@ class Walker:
 _WALKER = []
 
 
+_DECOYS = {}
+
+
 def lower(n, edges, kinds, guards, perm, dep_rev, twice=False):
     from dagrt.codegen.dag_ast import create_ast_from_phase
     from dagrt.language import DAGCode, ExecutionPhase
@@ -173,7 +176,16 @@ def lower(n, edges, kinds, guards, perm, dep_rev, twice=False):
     # the phase's own root computation is used in the default configuration; the scripted (reversed) root order only
     # in the dep_rev configurations
     ph = (Phase if dep_rev else ExecutionPhase)(name="ph", next_phase="ph", statements=stored)
-    dag = DAGCode({"ph": ph}, "ph")
+    # the phase sits between two other phases that use the SAME statement ids (ids are unique per phase only) for
+    # statements of another kind with other dependencies
+    other = tuple("A0" if k == "A2" else "A2" for k in kinds)
+    if other not in _DECOYS:
+        _DECOYS[other] = (
+            ExecutionPhase(name="aa", next_phase="ph", statements=[make_stmt(i, other[i], "T", []) for i in range(n)]),
+            ExecutionPhase(name="zz", next_phase="ph", statements=[
+                make_stmt(i, other[i], "T", ["s%d" % (i + 1)] if i + 1 < n else []) for i in range(n)]))
+    aa, zz = _DECOYS[other]
+    dag = DAGCode({"aa": aa, "ph": ph, "zz": zz}, "ph")
     tree = create_ast_from_phase(dag, "ph")
     if twice:
         # lowering must not consume or alter the phase: the same objects lowered again give the same tree
